@@ -130,7 +130,7 @@ def build(spec, env):
             kb = max(1, bits // n); base = r.choice([(1 << kb) - 1, (1 << kb) + 1, r.getrandbits(kb) | 1 << max(kb - 1, 0), 2, 3])
             if base.bit_length() * n > bits + 200: base = 2
             u = base ** n + {'pw': 0, 'pwm1': -1, 'pwp1': 1}[cons] if base.bit_length() * n < 400000 else gen.nat(r, un)
-        elif cons == 'ones': u = (1 << (bits - r.randint(0, 63))) - 1
+        elif cons == 'ones': u = (1 << (bits - r.choice([0, 0, 0, 1, 2, r.randint(0, 63)]))) - r.choice([1, 1, 2, 3, 1 << 64 if un > 2 else 5, r.getrandbits(66)])
         else: u = gen.nat(r, un)
         if u < 0: u = 0
         if neg and n % 2 == 1: u = -u
